@@ -89,6 +89,7 @@ def run_one(p):
     simlog.log = rec.log
     simlog.exc_name = exc_name
     simlog.tick = rec.tick
+    simlog.hcall = lambda f, a, k: f(*a, **k)
     saved_modules = dict(sys.modules)
     saved_path = list(sys.path)
     saved_builtins = dict(builtins.__dict__)
